@@ -2,6 +2,7 @@ package harness
 
 import (
 	"fmt"
+	"os"
 	"sort"
 	"strings"
 
@@ -24,21 +25,21 @@ type Result struct {
 	Truncated bool   `json:"truncated,omitempty"`
 	Discarded string `json:"discarded,omitempty"`
 
-	Committed  int   `json:"committed"`
-	OpsApplied int   `json:"ops_applied"`
-	Faults     int64 `json:"faults"`
-	States     []uint64 `json:"state_list,omitempty"`
+	Committed  int         `json:"committed"`
+	OpsApplied int         `json:"ops_applied"`
+	Faults     int64       `json:"faults"`
+	States     []uint64    `json:"state_list,omitempty"`
 	Sample     interface{} `json:"sample,omitempty"`
-	NStates    int   `json:"n_states"`
+	NStates    int         `json:"n_states"`
 
 	Stats  RunStats         `json:"stats"`
 	Net    NetStats         `json:"net"`
 	Probes map[string]int64 `json:"probes"`
 	Disk   map[string]int64 `json:"disk"`
 
-	Trace []string `json:"trace,omitempty"`
-	PlanLen int    `json:"plan_len"`
-	Voters  int    `json:"voters"`
+	Trace   []string `json:"trace,omitempty"`
+	PlanLen int      `json:"plan_len"`
+	Voters  int      `json:"voters"`
 }
 
 // Run executes one simulation.
@@ -181,6 +182,11 @@ func (c *Cluster) controller(plan Plan, res *Result) {
 	c.sleepUntil(faultEnd)
 	if !cfg.NoHeal {
 		c.healPhase()
+	}
+	if os.Getenv("VERIF_DEBUG_BLOCKED") != "" {
+		for _, t := range c.Sim.BlockedTasks() {
+			fmt.Fprintln(os.Stderr, "blocked:", t)
+		}
 	}
 	c.finalChecks()
 	c.Sim.Stop()
